@@ -257,8 +257,10 @@ func (b *BloomSearchEngine) Query(ctx context.Context, query *Query) (*Results, 
 		runJob := func(job dataBlockJob) bool {
 			defer handles.release(job.filePointer)
 			if !slot.acquire() {
+				verifQ("bw.acq", r, job.filePointer, 0, job.blockMetadata.RowDataOffset)
 				return false
 			}
+			verifQ("bw.acq", r, job.filePointer, 1, job.blockMetadata.RowDataOffset)
 			defer slot.release()
 			if scratch == nil {
 				scratch = newRowMatchScratch(rowMatcher)
@@ -271,12 +273,15 @@ func (b *BloomSearchEngine) Query(ctx context.Context, query *Query) (*Results, 
 			select {
 			case job, ok := <-blockJobs:
 				if !ok {
+					verifQ("bw.recv.closed", r, nil, 0, 0)
 					return
 				}
+				verifQ("bw.recv", r, job.filePointer, 0, job.blockMetadata.RowDataOffset)
 				if !runJob(job) {
 					return
 				}
 			case <-r.ctx.Done():
+				verifQ("bw.recv.cancel", r, nil, 0, 0)
 				return
 			}
 		}
@@ -312,6 +317,7 @@ func (b *BloomSearchEngine) Query(ctx context.Context, query *Query) (*Results, 
 			select {
 			case job, ok := <-fileJobs:
 				if !ok {
+					verifQ("fw.recv.closed", r, nil, 0, 0)
 					return
 				}
 
@@ -323,6 +329,7 @@ func (b *BloomSearchEngine) Query(ctx context.Context, query *Query) (*Results, 
 				// One reference spans the filter pass and the dispatch that
 				// follows, so the file's handles cannot be closed in between.
 				handles.retain(job.filePointer)
+				verifQ("fw.recv", r, job.filePointer, len(blocks), 0)
 				survivors = b.evaluateBlockFilters(r, &slot, handles, job, blocks, pruneBloomQuery, survivors[:0])
 				// The filter pass is the I/O this worker holds a semaphore slot
 				// for; dispatch can block on the block workers, and a slot held
@@ -330,6 +337,7 @@ func (b *BloomSearchEngine) Query(ctx context.Context, query *Query) (*Results, 
 				// small MaxQueryConcurrency, keep the block workers from ever
 				// acquiring one).
 				slot.release()
+				verifQ("fw.rel", r, job.filePointer, len(survivors), 0)
 
 				dispatched := true
 				for _, survivor := range survivors {
@@ -345,12 +353,16 @@ func (b *BloomSearchEngine) Query(ctx context.Context, query *Query) (*Results, 
 						break
 					}
 					spawnBlockWorker()
+					verifQ("fw.disp", r, job.filePointer, survivor.index, blockJob.blockMetadata.RowDataOffset)
 				}
 				handles.release(job.filePointer)
 				if !dispatched {
+					verifQ("fw.file.abandoned", r, job.filePointer, 0, 0)
 					return
 				}
+				verifQ("fw.file.done", r, job.filePointer, 0, 0)
 			case <-r.ctx.Done():
+				verifQ("fw.recv.cancel", r, nil, 0, 0)
 				return
 			}
 		}
@@ -374,14 +386,17 @@ func (b *BloomSearchEngine) Query(ctx context.Context, query *Query) (*Results, 
 		defer close(fileJobs)
 
 		workersSpawned := 0
+		verifQ("fs.enter", r, nil, 0, 0)
 		for maybeFile, err := range b.metaStore.GetMaybeFilesForQuery(r.ctx, query.Prefilter) {
 			if err != nil {
 				// Stop pulling; blocks already dispatched still finish, and
 				// the error surfaces from Results.Err.
 				r.recordQueryError(fmt.Errorf("MetaStore iteration failed: %w", err))
+				verifQ("fs.pull.err", r, nil, 0, 0)
 				return
 			}
 			if r.ctx.Err() != nil {
+				verifQ("fs.pull.cancel", r, nil, 0, 0)
 				return
 			}
 
@@ -393,6 +408,7 @@ func (b *BloomSearchEngine) Query(ctx context.Context, query *Query) (*Results, 
 			// left with no matching blocks are dropped.
 			maybeFile.Metadata.DataBlocks = FilterDataBlocks(maybeFile.Metadata.DataBlocks, query.Prefilter)
 			if len(maybeFile.Metadata.DataBlocks) == 0 {
+				verifQ("fs.pull.pruned", r, maybeFile.PointerBytes, 0, 0)
 				continue
 			}
 
@@ -402,6 +418,7 @@ func (b *BloomSearchEngine) Query(ctx context.Context, query *Query) (*Results, 
 				maybeFile.Metadata.BloomFilters.FieldTokenBloomFilter,
 				pruneBloomQuery,
 			) {
+				verifQ("fs.pull.pruned", r, maybeFile.PointerBytes, 1, 0)
 				continue
 			}
 
@@ -421,7 +438,9 @@ func (b *BloomSearchEngine) Query(ctx context.Context, query *Query) (*Results, 
 				filterRegionSize:   maybeFile.Metadata.BlockFilterRegionSize,
 				blocks:             maybeFile.Metadata.DataBlocks,
 			}
+			verifQ("fs.pull.job", r, job.filePointer, len(job.blocks), 0)
 			if err := sendWithContext(r.ctx, fileJobs, job); err != nil {
+				verifQ("fs.send.cancel", r, job.filePointer, 0, 0)
 				return
 			}
 			if workersSpawned < b.config.MaxQueryConcurrency {
@@ -429,7 +448,9 @@ func (b *BloomSearchEngine) Query(ctx context.Context, query *Query) (*Results, 
 				fileWorkers.Add(1)
 				go fileWorker()
 			}
+			verifQ("fs.sent", r, job.filePointer, workersSpawned, 0)
 		}
+		verifQ("fs.pull.end", r, nil, 0, 0)
 	}()
 
 	// Teardown order: file workers are the only spawners of block workers, so
@@ -438,9 +459,11 @@ func (b *BloomSearchEngine) Query(ctx context.Context, query *Query) (*Results, 
 	go func() {
 		fileWorkers.Wait()
 		close(blockJobs)
+		verifQ("td.closejobs", r, nil, 0, 0)
 		blockWorkers.Wait()
 		handles.closeAll()
 		r.markWorkersDone()
+		verifQ("td.finish", r, nil, 0, 0)
 	}()
 
 	return r, nil
@@ -508,8 +531,10 @@ func (b *BloomSearchEngine) evaluateBlockFilters(
 	}
 
 	if !slot.acquire() {
+		verifQ("fw.acq", r, job.filePointer, 0, 0)
 		return dst
 	}
+	verifQ("fw.acq", r, job.filePointer, 1, 0)
 
 	// fail records a filter-evaluation failure unless the query has terminated:
 	// after cancellation or Close, the terminal state already tells the story
@@ -525,6 +550,7 @@ func (b *BloomSearchEngine) evaluateBlockFilters(
 		// Cancellation is neither an error nor a block outcome: the blocks
 		// record nothing, exactly like blocks still queued for a scan when the
 		// query terminates.
+		verifQ("fw.postacq.cancel", r, job.filePointer, 0, 0)
 		return dst
 	}
 
@@ -532,9 +558,11 @@ func (b *BloomSearchEngine) evaluateBlockFilters(
 	if err != nil {
 		fail(fmt.Errorf("unusable block filter region metadata: %w", err))
 		recordUnreadBlocks(r, job.filePointer, blocks, 0)
+		verifQ("fw.plan.err", r, job.filePointer, 0, 0)
 		return dst
 	}
 	if !hasSections {
+		verifQ("fw.nosections", r, job.filePointer, 0, 0)
 		// Nothing to read, so the file is never even opened: absent filters
 		// disqualify nothing and every candidate block goes on to be scanned.
 		for i := range blocks {
@@ -549,6 +577,7 @@ func (b *BloomSearchEngine) evaluateBlockFilters(
 	if err != nil {
 		fail(fmt.Errorf("failed to open file: %w", err))
 		recordUnreadBlocks(r, job.filePointer, blocks, openDuration)
+		verifQ("fw.open.fail", r, job.filePointer, 0, 0)
 		return dst
 	}
 	// A handle whose read failed has an unknown stream position and must not be
@@ -571,6 +600,7 @@ func (b *BloomSearchEngine) evaluateBlockFilters(
 
 	for i := range blocks {
 		if r.ctx.Err() != nil {
+			verifQ("fw.eval.cancel", r, job.filePointer, i, 0)
 			return dst
 		}
 
@@ -583,9 +613,11 @@ func (b *BloomSearchEngine) evaluateBlockFilters(
 			if readFailed {
 				handleHealthy = false
 				recordUnreadBlocks(r, job.filePointer, blocks[i:], openShare+readShare+time.Since(blockStart))
+				verifQ("fw.eval.readfail", r, job.filePointer, i, block.RowDataOffset)
 				return dst
 			}
 			recordUnreadBlocks(r, job.filePointer, blocks[i:i+1], openShare+readShare+time.Since(blockStart))
+			verifQ("fw.eval.parsefail", r, job.filePointer, i, block.RowDataOffset)
 			continue
 		}
 
@@ -601,6 +633,7 @@ func (b *BloomSearchEngine) evaluateBlockFilters(
 
 		if survived {
 			dst = append(dst, blockScanCandidate{index: i, filterDuration: duration})
+			verifQ("fw.eval.survived", r, job.filePointer, i, block.RowDataOffset)
 			continue
 		}
 
@@ -612,8 +645,10 @@ func (b *BloomSearchEngine) evaluateBlockFilters(
 			Duration:           duration,
 			BloomFilterSkipped: true,
 		})
+		verifQ("fw.eval.pruned", r, job.filePointer, i, block.RowDataOffset)
 	}
 
+	verifQ("fw.eval.end", r, job.filePointer, len(blocks), 0)
 	return dst
 }
 
@@ -674,6 +709,7 @@ func (b *BloomSearchEngine) processDataBlock(
 			TotalBytes:     int64(job.blockMetadata.OnDiskSize()),
 			Duration:       job.filterDuration + time.Since(blockStartTime),
 		})
+		verifQ("bw.stats", r, job.filePointer, int(rowsScanned), job.blockMetadata.RowDataOffset)
 	}()
 
 	ctx := r.ctx
@@ -691,6 +727,7 @@ func (b *BloomSearchEngine) processDataBlock(
 	file, err := handles.acquire(ctx, job.filePointer)
 	if err != nil {
 		fail(fmt.Errorf("failed to open file: %w", err))
+		verifQ("bw.open.fail", r, job.filePointer, 0, job.blockMetadata.RowDataOffset)
 		return
 	}
 
@@ -707,6 +744,7 @@ func (b *BloomSearchEngine) processDataBlock(
 		// the file's next reader.
 		handles.discard(file)
 		fail(fmt.Errorf("failed to read block row data: %w", err))
+		verifQ("bw.read.fail", r, job.filePointer, 0, job.blockMetadata.RowDataOffset)
 		return
 	}
 	// The rest of the scan runs on the in-memory row data, so the handle goes
@@ -714,6 +752,7 @@ func (b *BloomSearchEngine) processDataBlock(
 	// reuse it, and no handle is ever held while a worker waits on a slow
 	// consumer.
 	handles.put(job.filePointer, file)
+	verifQ("bw.read.ok", r, job.filePointer, 0, job.blockMetadata.RowDataOffset)
 	// The block buffer returns to the pool when this scan exits: by then every
 	// row view has been dropped (matching parses transient views; matched rows
 	// are materialized as independent copies before batching).
@@ -735,6 +774,7 @@ func (b *BloomSearchEngine) processDataBlock(
 		rowBytes, ok, err := scanner.Next()
 		if err != nil {
 			fail(fmt.Errorf("failed to read row: %w", err))
+			verifQ("bw.scan.fail", r, job.filePointer, 0, job.blockMetadata.RowDataOffset)
 			return
 		}
 		if !ok {
@@ -755,6 +795,7 @@ func (b *BloomSearchEngine) processDataBlock(
 		row, err := materializeRow(rowBytes)
 		if err != nil {
 			fail(err)
+			verifQ("bw.scan.fail", r, job.filePointer, 1, job.blockMetadata.RowDataOffset)
 			return
 		}
 
